@@ -195,6 +195,62 @@ def test_multi(inp):
     return None
 
 
+def gen_accessor(tier, seed):
+    for conv in ('cf1d', 'shoc_standard', 'ugrid'):
+        for p, o in itertools.product(OPTS, OPTS):
+            for first in ('down', 'up'):
+                yield {'conv': conv, 'p': p, 'o': o, 'first': first}
+
+
+def test_accessor(inp):
+    """dataset.ems.normalize_depth_variables on a convention dataset with two depth coordinates on ONE dimension (opposite sign conventions) and a
+    third on another: every depth coordinate of the dataset ends up with the requested sign and order."""
+    from harness import datasets
+    import warnings
+    with warnings.catch_warnings():
+        warnings.simplefilter('ignore')
+        ds = datasets.build({'conv': inp['conv'], 'ny': 2, 'nx': 3, 'depth': 0})
+        fdims = list(ds.ems.grid_dimensions[ds.ems.default_grid_kind])
+    z = numpy.array([0.5, 1.5, 3.0])
+    sgn = {'down': 1.0, 'up': -1.0}
+    other = 'up' if inp['first'] == 'down' else 'down'
+    names = {'shoc_standard': ('z_centre', 'z_grid', 'k_centre', 'k_grid')}.get(inp['conv'], ('depth_a', 'depth_b', 'layer', 'sed'))
+    za, zb, dim, dim2 = names
+    if inp['conv'] == 'shoc_standard':
+        coords = {za: ((dim,), sgn[inp['first']] * z, {'positive': inp['first'], 'axis': 'Z'}), zb: ((dim2,), sgn[other] * z[::-1].copy(), {'positive': other, 'axis': 'Z'})}
+    else:
+        coords = {za: ((dim,), sgn[inp['first']] * z, {'positive': inp['first'], 'axis': 'Z'}), zb: ((dim,), sgn[other] * z, {'positive': other, 'axis': 'Z'}),
+                  'zsed': ((dim2,), sgn[other] * z[::-1].copy(), {'positive': other, 'axis': 'Z'})}
+    ds = ds.assign_coords(coords)
+    shape = tuple(ds.sizes[d] for d in fdims)
+    ds['col'] = xarray.DataArray(numpy.arange(3 * int(numpy.prod(shape)), dtype=float).reshape((3,) + shape), dims=[dim] + fdims)
+    ds['col2'] = xarray.DataArray(numpy.arange(3 * int(numpy.prod(shape)), dtype=float).reshape((3,) + shape) + 100, dims=[dim2] + fdims)
+    p, o = inp['p'], inp['o']
+    with warnings.catch_warnings():
+        warnings.simplefilter('ignore')
+        found = sorted(str(d.name) for d in ds.ems.depth_coordinates)
+        if found != sorted(coords):
+            return f'depth_coordinates {found}, the dataset has {sorted(coords)}'
+        kw = {k: v for k, v in (('positive_down', p), ('deep_to_shallow', o)) if v is not None}
+        out = must(lambda: ds.ems.normalize_depth_variables(**kw), 'dataset.ems.normalize_depth_variables')
+    for name, (dims, vals, attrs) in coords.items():
+        s_in = sgn[attrs['positive']]
+        s_out = (1.0 if p else -1.0) if p is not None else s_in
+        got = out[name].values
+        depth_in = sorted((s_in * vals).tolist())
+        if sorted((s_out * got).tolist()) != depth_in:
+            return f'{name}: values {got.tolist()} with positive={out[name].attrs.get("positive")!r} are not the physical depths {depth_in} (positive_down={p})'
+        if out[name].attrs.get('positive') != (('down' if p else 'up') if p is not None else attrs['positive']):
+            return f'{name}: positive attribute is {out[name].attrs.get("positive")!r} (positive_down={p})'
+        if p is not None and not (numpy.all(got >= 0) if p else numpy.all(got <= 0)):
+            return f'{name}: values {got.tolist()} do not follow the requested sign convention (positive_down={p})'
+        if o is not None:
+            d = s_out * got
+            if (d[0] > d[-1]) != o:
+                return f'{name}: order {got.tolist()} is not the requested one (deep_to_shallow={o})'
+    return None
+
+
 CHECKS = [Check('normalize', gen, test, key=key,
                 space='6 monotonic depth axes (>= 2 levels; all-positive, all-negative, zero-crossing) x positive attr '
                       '{down, up, DOWN, Up, absent} x {dimension coordinate, auxiliary} x bounds {none, variable, coordinate} '
@@ -202,4 +258,7 @@ CHECKS = [Check('normalize', gen, test, key=key,
                 bound='enumerated, finite family of axes', exhaustive=False),
           Check('multi', gen_multi, test_multi, key=lambda i, d: 'normalize:several-coordinates',
                 space='two depth coordinates on separate dimensions, every ordered pair of 4 axis layouts x 9 option pairs x both listing orders',
-                bound='216 cases', exhaustive=False)]
+                bound='216 cases', exhaustive=False),
+          Check('accessor', gen_accessor, test_accessor, key=lambda i, d: f"normalize-accessor:{i['conv']}",
+                space='dataset.ems.normalize_depth_variables on 3 convention datasets with two depth coordinates on one dimension (opposite signs) + one on another x 9 option pairs x 2',
+                bound='54 cases', exhaustive=False)]
